@@ -5,6 +5,14 @@ go 1.23
 require golang.org/x/tools v0.29.0
 
 require (
+	github.com/philhofer/fwd v1.1.2-0.20210722190033-5c56ac6d0bb9 // indirect
 	golang.org/x/mod v0.22.0 // indirect
 	golang.org/x/sync v0.10.0 // indirect
+	golang.org/x/sys v0.29.0 // indirect
 )
+
+require github.com/tinylib/msgp v1.1.6
+
+replace github.com/tinylib/msgp => github.com/0chain/msgp v1.1.62
+
+require golang.org/x/crypto v0.21.0
